@@ -22,6 +22,36 @@ class Obl:
                 'detail': self.detail, 'backend': self.backend, 'model': self.model}
 
 
+_hq_cache = {}
+
+
+def has_quantifier(t):
+    """does the term contain a quantifier or lambda?"""
+    if isinstance(t, bool):
+        return False
+    key = t.get_id()
+    if key in _hq_cache:
+        return _hq_cache[key]
+    stack, seen, res = [t], set(), False
+    while stack:
+        x = stack.pop()
+        i = x.get_id()
+        if i in seen:
+            continue
+        seen.add(i)
+        if z3.is_quantifier(x):
+            res = True
+            break
+        if i in _hq_cache:
+            if _hq_cache[i]:
+                res = True
+                break
+            continue
+        stack.extend(x.children())
+    _hq_cache[key] = res
+    return res
+
+
 class Heap(dict):
     """heap cells; a row view (ref.meta['parent'] = (rows ref, index term)) reads and writes through its parent"""
     def __getitem__(self, r):
@@ -49,6 +79,10 @@ class State:
     def __init__(self, prefix, timeout_ms=10000, symbols=None):
         self.solver = z3.Solver()
         self.solver.set('timeout', timeout_ms)
+        # light solver: quantifier-free part of the path condition only; used for path feasibility (an
+        # over-approximation is sound there: an infeasible path explored anyway proves its obligations vacuously)
+        self.light = z3.Solver()
+        self.light.set('timeout', 4000)
         self.timeout_ms = timeout_ms
         self.pc = []
         self.heap = Heap()
@@ -99,9 +133,13 @@ class State:
         return r
 
     def note_write(self, ref, field=None):
+        row = None
         if ref.meta.get('parent') is not None:
+            row = ('row', ref.meta['parent'][0], ref.meta['parent'][1].get_id())
             ref = ref.meta['parent'][0]
         for fr in self.frames:
+            if row is not None and row in fr['refs']:
+                continue
             if ref.meta.get('birth', 0) > fr['stamp']:
                 continue
             if ref in fr['refs'] or (ref, field) in fr['refs']:
@@ -117,6 +155,30 @@ class State:
             return
         self.pc.append(cond)
         self.solver.add(cond)
+        if not has_quantifier(cond):
+            self.light.add(cond)
+
+    def push(self, *conds):
+        self.solver.push()
+        self.light.push()
+        for c in conds:
+            self.solver.add(c)
+            if not has_quantifier(c):
+                self.light.add(c)
+
+    def pop(self):
+        self.solver.pop()
+        self.light.pop()
+
+    def _check_light(self, extra):
+        t0 = time.time()
+        self.light.push()
+        self.light.add(extra)
+        r = self.light.check()
+        self.light.pop()
+        self.solver_secs += time.time() - t0
+        self.n_queries += 1
+        return r
 
     def _check(self, extra=None):
         t0 = time.time()
@@ -132,7 +194,29 @@ class State:
 
     def feasible(self, cond):
         """is pc /\\ cond satisfiable?  unknown counts as feasible (sound for proofs)."""
-        return self._check(cond) != z3.unsat
+        if has_quantifier(cond):
+            return self._check(cond) != z3.unsat
+        r = self._check_light(cond)
+        if r == z3.unknown:
+            r = self._check(cond)      # the light solver timed out (loaded machine): ask the full one
+        return r != z3.unsat
+
+    def decide(self, cond):
+        """True / False if the path condition implies cond / not cond, else None (used where forking is not allowed)"""
+        ft = self.feasible(cond)
+        ff = self.feasible(z3.Not(cond))
+        if ft and ff:
+            # both look feasible: make sure with the full solver before giving up
+            if self._check(z3.Not(cond)) == z3.unsat:
+                return True
+            if self._check(cond) == z3.unsat:
+                return False
+            return None
+        if ft:
+            return True
+        if ff:
+            return False
+        return True
 
     def branch(self, cond):
         """cond: z3 Bool.  Returns the python bool taken on this path."""
@@ -202,7 +286,23 @@ class State:
         if z3.is_true(claim):
             self.obligations.append(Obl(label, 'trivial', 0.0, detail))
             return
-        r = self._check(z3.Not(claim))
+        r = z3.unknown
+        if any(has_quantifier(a) for a in self.pc[-60:]) or has_quantifier(claim):
+            # quantified hypotheses: first try E-matching only (model-based instantiation off), it is much
+            # faster on valid obligations; fall back to the default configuration otherwise
+            s2 = z3.Solver()
+            s2.set('timeout', max(2000, self.timeout_ms // 2))
+            s2.set('smt.mbqi', False)
+            s2.add(self.solver.assertions())
+            s2.add(z3.Not(claim))
+            t1 = time.time()
+            r = s2.check()
+            self.solver_secs += time.time() - t1
+            self.n_queries += 1
+            if r != z3.unsat:
+                r = z3.unknown
+        if r != z3.unsat:
+            r = self._check(z3.Not(claim))
         secs = time.time() - t0
         if r == z3.unsat:
             self.obligations.append(Obl(label, 'discharged', secs, detail))
